@@ -39,7 +39,6 @@ Definition E_RDATA := 4.
 Definition E_COUNT := 5.
 Definition E_ENC := 6.
 Definition E_UNSUPPORTED := 7.
-Definition E_UNMODELLED := 900.   (* RDATA type whose decoder is not modelled yet *)
 
 Definition opt_out {A} (o : option A) (site : Z) : outcome A :=
   match o with Some v => Ok v | None => Panic site end.
@@ -366,6 +365,48 @@ Definition T_AAAA := 28.  Definition T_SRV := 33.   Definition T_NAPTR := 35. De
 Definition T_RRSIG := 46. Definition T_DNSKEY := 48. Definition T_SVCB := 64. Definition T_HTTPS := 65.
 Definition T_URI := 256.
 
+(* decodeOPTs 1280-1307, the loop 1292-1305: i grows by at least 4 *)
+Fixpoint opts_loop (data : list Z) (fuel : nat) (i : Z) (acc : list dopt) : outcome (list dopt) :=
+  match fuel with
+  | O => Panic N6_FUEL
+  | S f =>
+      if i <? n6_len data then
+        if n6_len data <? i + 4 then Err E_RDATA
+        else
+          do code <- rd16 data i;
+          do l <- rd16 data (i + 2);
+          if i + 4 + l >? n6_len data then Err E_RDATA
+          else do v <- rdsl data (i + 4) (i + 4 + l); opts_loop data f (i + l + 4) (acc ++ [mkDopt code v])
+      else Ok acc
+  end.
+Definition decode_opts (data : list Z) (offset : Z) : outcome (list dopt) :=
+  if offset =? n6_len data then Ok []
+  else if offset + 4 >? n6_len data then Err E_RDATA
+  else opts_loop data (S (length data)) offset [].
+
+(* decodeSVCB 1309-1348, the SvcParams loop 1327-1341: ofs grows by at least 4 *)
+Fixpoint svc_loop (data : list Z) (fuel : nat) (ofs : Z) (acc : list svcparam) : outcome (list svcparam) :=
+  match fuel with
+  | O => Panic N6_FUEL
+  | S f =>
+      if ofs <? n6_len data then
+        if ofs + 4 >? n6_len data then Err E_RDATA
+        else
+          do key <- rd16 data ofs;
+          do l <- rd16 data (ofs + 2);
+          if ofs + 4 + l >? n6_len data then Err E_RDATA
+          else do v <- rdsl data (ofs + 4) (ofs + 4 + l); svc_loop data f (ofs + 4 + l) (acc ++ [mkSvcparam key v])
+      else Ok acc
+  end.
+
+(* one <character-string> of a NAPTR record 1457-1489: (string, offset after it) *)
+Definition naptr_str (data : list Z) (offset : Z) : outcome (list Z * Z) :=
+  if n6_len data <? offset + 1 then Err E_RDATA
+  else
+    do l <- rd8 data offset;
+    if n6_len data <? offset + 1 + l then Err E_RDATA
+    else do s <- rdsl data (offset + 1) (offset + 1 + l); Ok (s, offset + 1 + l).
+
 (* decodeRData 1350-1529; data is data[:end] of the message, offset the start of the RDATA *)
 Definition decode_rdata (r : rr) (data : list Z) (offset : Z) (buf : list Z) : outcome (rr * list Z) :=
   let t := r_type r in
@@ -409,8 +450,60 @@ Definition decode_rdata (r : rr) (data : list Z) (offset : Z) (buf : list Z) : o
       do po <- rd16 data (offset + 4);
       do (name, l, _, buf') <- rd_name data (offset + 6) buf;
       Ok (rr_meta_rdata (rr_set_srv r (mkSrv p w po name)) name l, buf')
-  else if (t =? T_URI) || (t =? T_NAPTR) || (t =? T_OPT) || (t =? T_RRSIG) || (t =? T_DNSKEY)
-          || (t =? T_SVCB) || (t =? T_HTTPS) then Err E_UNMODELLED
+  else if t =? T_URI then                                                   (* 1428-1434 *)
+    if n6_len (r_data r) <? 4 then Err E_RDATA
+    else
+      do p <- rd16 data offset;
+      do w <- rd16 data (offset + 2);
+      do tg <- rdsl (r_data r) 4 (n6_len (r_data r));
+      Ok (rr_set_uri r (mkUri p w tg), buf)
+  else if t =? T_NAPTR then                                                 (* 1450-1498 *)
+    if n6_len data <? offset + 4 then Err E_RDATA
+    else
+      do o <- rd16 data offset;
+      do p <- rd16 data (offset + 2);
+      do (fl, o1) <- naptr_str data (offset + 4);
+      do (sv, o2) <- naptr_str data o1;
+      do (re, o3) <- naptr_str data o2;
+      do (name, l, _, buf') <- rd_name data o3 buf;
+      Ok (rr_meta_rdata (rr_set_naptr r (mkNaptr o p fl sv re name)) name l, buf')
+  else if t =? T_OPT then                                                   (* 1499-1504 *)
+    do os <- decode_opts data offset; Ok (rr_set_opt r os, buf)
+  else if t =? T_RRSIG then                                                 (* 1505-1512, DNSRRSIG.decode 1726-1748 *)
+    if n6_len data <? offset + 18 then Err E_RDATA
+    else
+      do cov <- rd16 data offset;
+      do alg <- rd8 data (offset + 2);
+      do lab <- rd8 data (offset + 3);
+      do ottl <- rd32 data (offset + 4);
+      do ex <- rd32 data (offset + 8);
+      do inc <- rd32 data (offset + 12);
+      do tag <- rd16 data (offset + 16);
+      (* the name buffer of this call is rrsig.SignerName itself, nil in the zero record *)
+      match decode_name data (offset + 18) [] with
+      | NErr e => Err e
+      | NPanic s => Panic s
+      | NOk _ l next sbuf =>
+          let signer := if 1 <? n6_len sbuf then skipn 1 sbuf else sbuf in      (* 1740-1742 *)
+          do sig <- rdsl data next (n6_len data);
+          Ok (rr_meta_rdata (rr_set_rrsig r (mkRrsig cov alg lab ottl ex inc tag signer sig)) signer l, buf)
+      end
+  else if t =? T_DNSKEY then                                                (* 1513-1517, DNSKEY.decode 1815-1824 *)
+    if n6_len data <? offset + 4 then Err E_RDATA
+    else
+      do fl <- rd16 data offset;
+      do pr <- rd8 data (offset + 2);
+      do al <- rd8 data (offset + 3);
+      do key <- rdsl data (offset + 4) (n6_len data);
+      Ok (rr_set_dnskey r (mkDnskey fl pr al key), buf)
+  else if (t =? T_SVCB) || (t =? T_HTTPS) then                             (* 1518-1526, decodeSVCB 1309-1348 *)
+    if offset =? n6_len data then Err E_RDATA
+    else if offset + 3 >? n6_len data then Err E_RDATA
+    else
+      do prio <- rd16 data offset;
+      do (target, l, ofs, buf') <- rd_name data (offset + 2) buf;
+      do params <- svc_loop data (S (length data)) ofs [];
+      Ok (rr_meta_rdata (rr_set_svcb r (mkSvcb prio target params)) target l, buf')
   else Ok (r, buf).
 
 (* DNSResourceRecord.decode 1056-1087.  The Go code decodes into the zero record appended to the
@@ -724,6 +817,28 @@ Fixpoint txt_loop (txts : list (list Z)) (data : list Z) (noff2 : Z) : outcome (
       txt_loop rest d2 (noff2 + 1 + n6_len t)
   end.
 
+(* the OPT loop 1203-1208 *)
+Fixpoint opt_enc_loop (os : list dopt) (data : list Z) (noff2 : Z) : outcome (list Z) :=
+  match os with
+  | [] => Ok data
+  | o :: rest =>
+      do d1 <- wr16 data noff2 (op_code o);
+      do d2 <- wr16 d1 (noff2 + 2) (u16 (n6_len (op_data o)));
+      do d3 <- wr_copy d2 (noff2 + 4) (op_data o);
+      opt_enc_loop rest d3 (noff2 + 4 + n6_len (op_data o))
+  end.
+
+(* DNSSvcParam.encode 1666-1675 over svcb.Params 1603-1605 *)
+Fixpoint svc_enc_loop (ps : list svcparam) (data : list Z) (offset : Z) : outcome (list Z) :=
+  match ps with
+  | [] => Ok data
+  | p :: rest =>
+      do d1 <- wr16 data offset (sp_key p);
+      do d2 <- wr16 d1 (offset + 2) (u16 (n6_len (sp_value p)));
+      do d3 <- wr_copy d2 (offset + 4) (sp_value p);
+      svc_enc_loop rest d3 (offset + 4 + n6_len (sp_value p))
+  end.
+
 (* the switch on rr.Type of DNSResourceRecord.encode 1130-1221: the RDATA written at noff+10.
    orig = true: the unchanged code's A/AAAA cases (copy of To4()/IP whatever their length). *)
 Definition rdata_encode (orig : bool) (r : rr) (d4 : list Z) (noff : Z) : outcome (list Z) :=
@@ -757,8 +872,41 @@ Definition rdata_encode (orig : bool) (r : rr) (d4 : list Z) (noff : Z) : outcom
     do db <- wr16 da (noff + 12) (sv_weight (r_srv r));
     do dc <- wr16 db (noff + 14) (sv_port (r_srv r));
     do (_, d) <- enc_name (sv_name (r_srv r)) (rdata_meta r) dc (noff + 16); Ok d
-  else if (t =? T_URI) || (t =? T_NAPTR) || (t =? T_OPT) || (t =? T_RRSIG) || (t =? T_DNSKEY)
-          || (t =? T_SVCB) || (t =? T_HTTPS) then Err E_UNMODELLED
+  else if t =? T_NAPTR then                                                 (* 1181-1196 *)
+    let n := r_naptr r in
+    do da <- wr16 d4 (noff + 10) (na_order n);
+    do db <- wr16 da (noff + 12) (na_pref n);
+    do dc <- txt_loop [na_flags n; na_service n; na_regexp n] db (noff + 14);
+    do (_, d) <- enc_name (na_repl n) (rdata_meta r) dc
+                   (noff + 14 + 1 + n6_len (na_flags n) + 1 + n6_len (na_service n) + 1 + n6_len (na_regexp n));
+    Ok d
+  else if t =? T_URI then                                                   (* 1197-1200 *)
+    do da <- wr16 d4 (noff + 10) (u_prio (r_uri r));
+    do db <- wr16 da (noff + 12) (u_weight (r_uri r));
+    wr_copy db (noff + 14) (u_target (r_uri r))
+  else if t =? T_OPT then opt_enc_loop (r_opt r) d4 (noff + 10)              (* 1201-1208 *)
+  else if t =? T_RRSIG then                                                 (* 1209-1212, DNSRRSIG.encode 1750-1765 *)
+    let g := r_rrsig r in let off := noff + 10 in
+    do da <- wr16 d4 off (sg_covered g);
+    do db <- wr8 da (off + 2) (u8 (sg_alg g));
+    do dc <- wr8 db (off + 3) (u8 (sg_labels g));
+    do dd <- wr32 dc (off + 4) (sg_ottl g);
+    do de <- wr32 dd (off + 8) (sg_exp g);
+    do df <- wr32 de (off + 12) (sg_inc g);
+    do dg <- wr16 df (off + 16) (sg_tag g);
+    do (n, dh) <- enc_name (sg_signer g) (rdata_meta r) dg (off + 18);
+    wr_copy dh (off + 18 + n) (sg_sig g)
+  else if t =? T_DNSKEY then                                                (* 1213-1214, DNSKEY.encode 1826-1831 *)
+    let k := r_dnskey r in let off := noff + 10 in
+    do da <- wr16 d4 off (dk_flags k);
+    do db <- wr8 da (off + 2) (u8 (dk_proto k));
+    do dc <- wr8 db (off + 3) (u8 (dk_alg k));
+    wr_copy dc (off + 4) (dk_key k)
+  else if (t =? T_SVCB) || (t =? T_HTTPS) then                             (* 1215-1218, DNSSVCB.encode 1594-1607 *)
+    let v := r_svcb r in let off := noff + 10 in
+    do da <- wr16 d4 off (sb_prio v);
+    do (n, db) <- enc_name (sb_target v) (rdata_meta r) da (off + 2);
+    svc_enc_loop (sb_params v) db (off + 2 + n)
   else Err E_UNSUPPORTED.
 
 (* DNSResourceRecord.encode 1118-1235: (bytes written, data, the record after FixLengths) *)
